@@ -32,6 +32,15 @@ type Scenario struct {
 	// Post turns library incidents recorded by the simulator (panics in library goroutines,
 	// aborted handlers) into verdicts, for the properties that are about them.
 	Post func(res *sim.Result) []sim.Violation
+	// Enum, when set, makes every run a fault enumeration: a fault-free pilot run records its I/O
+	// points, then the run is repeated with one fault armed at each point (all kinds that apply).
+	Enum *EnumSpec
+}
+
+// EnumSpec describes a fault enumeration.
+type EnumSpec struct {
+	Kinds       func(site string) []string // fault kinds applicable at an I/O point
+	MaxPerPilot map[string]int             // per tier: cap on (point, kind) pairs per pilot (0 = all)
 }
 
 var registry = map[string]*Scenario{}
